@@ -335,6 +335,8 @@ def _split_field(inner):
 
 def parse_operand(s):
     s = s.strip()
+    if s.startswith("no_retag "):
+        s = s[len("no_retag "):].strip()
     if s.startswith("copy "):
         return ("place", parse_place(s[5:]))
     if s.startswith("move "):
@@ -346,6 +348,8 @@ def parse_operand(s):
 
 def parse_rvalue(s):
     s = s.strip()
+    if s.startswith("no_retag "):
+        s = s[len("no_retag "):].strip()
     if s.startswith(("copy ", "move ", "const ")) and " as " not in _strip_brackets(s):
         return ("use", parse_operand(s))
     m = re.match(r"^(\w+)\((.*)\)$", s)
